@@ -536,7 +536,8 @@ def load_tables(prog=None):
             # rows of sibling closures with the same signature are merged (counts add up)
             if (rows[k]["verdict"] == "finding") != (r["verdict"] == "finding"):
                 raise SystemExit("tables/panic_sites.json: finding and reviewed rows collide on %s %s" % k)
-            rows[k] = dict(rows[k], count=rows[k]["count"] + r["count"], reason=rows[k]["reason"] + " | " + r["reason"])
+            rows[k] = dict(rows[k], count=rows[k]["count"] + r["count"], reason=rows[k]["reason"] + " | " + r["reason"],
+                           baseline=(rows[k].get("baseline", rows[k]["count"]) + r.get("baseline", r["count"])))
         else:
             rows[k] = r
     contracts = {fn: {norm_fn(c): how for c, how in callers.items()} for fn, callers in ct["contracts"].items()}
@@ -614,7 +615,11 @@ def rebalance(chk, prog, res, rows):
                         if c_ != a_:
                             nbrs.setdefault(a_, set()).add(c_)
                             nbrs.setdefault(c_, set()).add(a_)
-        cands = [nb for nb in sorted(nbrs.get(fp, ())) if (nb, sig) in rows and len(res.get((nb, sig), [])) + excess <= rows[(nb, sig)]["count"]]
+        # (room = sites the row covered on the reviewed tree that are gone now; a row whose sites were always discharged mechanically has none)
+        def room(nb):
+            r_ = rows[(nb, sig)]
+            return min(r_["count"], r_.get("baseline", r_["count"])) - len(res.get((nb, sig), []))
+        cands = [nb for nb in sorted(nbrs.get(fp, ())) if (nb, sig) in rows and excess <= room(nb)]
         if cands:
             moves.append(((fp, sig), cands, excess))
     for (fp, sig), cands, excess in moves:
